@@ -257,10 +257,17 @@ class Term:
             return y
         if x == y:
             return x
-        if x[0] == "u":
-            return y
-        if y[0] == "u":
-            return x
+        if x[0] == "u" or y[0] == "u":
+            # the undefined arm is a don't-care: the defined arm keeps its cases, restricted to the inputs that
+            # select it (the rest stays unspecified and is ignored by `same`)
+            d, g = (y, S.b_not(c)) if x[0] == "u" else (x, c)
+            if d[0] == "v":
+                items = [(t, S.b_and(gg, g)) for t, gg in d[2]]
+                items = [(t, gg) for t, gg in items if gg != 0]
+                if not items:
+                    return UNDEF
+                return self.mk_cases(d[1], items)
+            return d
         if x[0] == "b" and y[0] == "b":
             return ("b", S.b_ite(c, x[1], y[1]))
         if x[0] == "bot":
@@ -316,11 +323,191 @@ class Term:
     def mk_op(self, ty, name, ops, flags):
         """flags are not part of a term's identity; a term counts as flagged in this function only if every
         instruction of this function that computes it carries the flag"""
+        r = self._simplify(ty, name, tuple(ops), flags)
+        if r is not None:
+            return r
         t = self.S.mk("op", ty, name, tuple(ops))
         fl = frozenset(flags)
         old = self.flags.get(t)
         self.flags[t] = fl if old is None else (old & fl)
         return t
+
+    # ---- bit-slice normalisation (ring identities modulo 2^w; no flags are assumed or produced) ------------
+    def _shl_const(self, t):
+        """(x, k) if t is shl(x, const k) with 0 < k < width, else None"""
+        n = self.S.node[t]
+        if n[0] == "op" and n[2] == "shl":
+            k = self.S.node[n[3][1]]
+            if k[0] == "const" and 0 < k[2] < _width(n[1]):
+                return n[3][0], k[2]
+        return None
+
+    def _simplify(self, ty, name, ops, flags=()):
+        S = self.S
+        # constant folding (constants reach operations through phis and selects)
+        if all(S.node[o][0] == "const" and isinstance(S.node[o][2], int) for o in ops) and re.match(r"^i\d+$", ty):
+            w = _width(ty)
+            mask = (1 << w) - 1
+            v = [S.node[o][2] for o in ops]
+            sv = [x - (1 << _width(S.node[o][1])) if x >> (_width(S.node[o][1]) - 1) else x for x, o in zip(v, ops)]
+            r = None
+            if len(ops) == 2:
+                a, b = v
+                if name == "add":
+                    r = a + b
+                elif name == "sub":
+                    r = a - b
+                elif name == "mul":
+                    r = a * b
+                elif name == "and":
+                    r = a & b
+                elif name == "or":
+                    r = a | b
+                elif name == "xor":
+                    r = a ^ b
+                elif name == "shl" and b < w:
+                    r = a << b
+                elif name == "lshr" and b < w:
+                    r = a >> b
+                elif name == "ashr" and b < w:
+                    r = sv[0] >> b
+            elif len(ops) == 1:
+                if name in ("zext", "trunc"):
+                    r = v[0]
+                elif name == "sext":
+                    r = sv[0]
+            if r is not None:
+                return S.mk("const", ty, r & mask)
+        # neutral and absorbing constants
+        if len(ops) == 2 and re.match(r"^i\d+$", ty):
+            w = _width(ty)
+            for i in (0, 1):
+                k = S.node[ops[i]]
+                if k[0] != "const" or not isinstance(k[2], int):
+                    continue
+                o = ops[1 - i]
+                commut = name in ("add", "or", "xor", "and", "mul")
+                if not commut and i == 0:
+                    continue
+                if k[2] == 0 and name in ("add", "or", "xor", "sub", "shl", "lshr", "ashr"):
+                    return o
+                if k[2] == 0 and name in ("and", "mul"):
+                    return S.mk("const", ty, 0)
+                if k[2] == (1 << w) - 1 and name == "and":
+                    return o
+                if k[2] == 1 and name == "mul":
+                    return o
+        if name == "mul":
+            # (x << k) * y == (x * y) << k  modulo 2^w
+            for i in (0, 1):
+                sc = self._shl_const(ops[i])
+                if sc is not None:
+                    x, k = sc
+                    y = ops[1 - i]
+                    p, q = (x, y) if x <= y else (y, x)
+                    inner = self.mk_op(ty, "mul", (p, q), ())
+                    return self.mk_op(ty, "shl", (inner, S.mk("const", ty, k)), ())
+        if name == "shl":
+            k = S.node[ops[1]]
+            sc = self._shl_const(ops[0])
+            if k[0] == "const" and sc is not None:
+                w = _width(ty)
+                if sc[1] + k[2] >= w:
+                    return S.mk("const", ty, 0)
+                return self.mk_op(ty, "shl", (sc[0], S.mk("const", ty, sc[1] + k[2])), ())
+        if name == "trunc":
+            # the bits [s, s+wt) of (P << k) are the bits [s-k, s-k+wt) of P when s >= k and s + wt <= w
+            n = S.node[ops[0]]
+            if n[0] == "op" and n[2] == "lshr":
+                sk = S.node[n[3][1]]
+                sc = self._shl_const(n[3][0])
+                if sk[0] == "const" and sc is not None:
+                    w, wt = _width(n[1]), _width(ty)
+                    s_, (P, k) = sk[2], sc
+                    if s_ >= k and s_ + wt <= w:
+                        inner = P if s_ == k else self.mk_op(n[1], "lshr", (P, S.mk("const", n[1], s_ - k)), ())
+                        return self.mk_op(ty, "trunc", (inner,), ())
+            if flags:
+                return None
+            w, wt = _width(n[1]), _width(ty)
+            if n[0] == "const":
+                return S.mk("const", ty, n[2] & ((1 << wt) - 1))
+            if n[0] != "op":
+                return None
+            nm, nops = n[2], n[3]
+            if nm == "ashr":
+                # the low wt bits of an arithmetic and of a logical shift agree while s + wt <= w
+                sk = S.node[nops[1]]
+                if sk[0] == "const" and sk[2] + wt <= w:
+                    return self.mk_op(ty, "trunc", (self.mk_op(n[1], "lshr", nops, ()),), ())
+            if nm in ("mul", "add", "sub", "and", "or", "xor"):
+                # truncation is a ring homomorphism
+                p = self.mk_op(ty, "trunc", (nops[0],), ())
+                q = self.mk_op(ty, "trunc", (nops[1],), ())
+                if nm != "sub" and p > q:
+                    p, q = q, p
+                return self.mk_op(ty, nm, (p, q), ())
+            if nm in ("zext", "sext", "trunc"):
+                wi = _width(S.node[nops[0]][1])
+                if wi == wt:
+                    return nops[0]
+                if wi > wt or nm == "trunc":
+                    return self.mk_op(ty, "trunc", (nops[0],), ())
+                return self.mk_op(ty, nm, (nops[0],), ())
+            if nm == "shl":
+                sk = S.node[nops[1]]
+                if sk[0] == "const":
+                    if sk[2] >= wt:
+                        return S.mk("const", ty, 0)
+                    return self.mk_op(ty, "shl", (self.mk_op(ty, "trunc", (nops[0],), ()), S.mk("const", ty, sk[2])), ())
+        return None
+
+    # ---- exact products ---------------------------------------------------------
+    def _prod_leaf(self, l1, l2):
+        """leaf standing for the exact integer product of two leaf values; its pseudo-type is wide enough for
+        every product of the two readings"""
+        S = self.S
+        (m1, t1), (m2, t2) = sorted((l1, l2), key=lambda l: (l[1], l[0]))
+        for t in (t1, t2):
+            n = S.node[t]
+            if n[0] == "op" and n[2].startswith("xmul"):
+                return None
+        w = _width(S.node[t1][1]) + _width(S.node[t2][1]) + 1
+        return ("S", S.mk("op", "i%d" % w, "xmul" + m1 + m2, (t1, t2)))
+
+    def _product(self, a, b):
+        ca, ka, la, ha = a
+        cb, kb, lb, hb = b
+        if len(ca) * len(cb) > 4:
+            return None
+        c = {}
+        for l, x in ca.items():
+            c[l] = c.get(l, 0) + x * kb
+        for l, x in cb.items():
+            c[l] = c.get(l, 0) + x * ka
+        for l1, x1 in ca.items():
+            for l2, x2 in cb.items():
+                pl = self._prod_leaf(l1, l2)
+                if pl is None:
+                    return None
+                c[pl] = c.get(pl, 0) + x1 * x2
+        cs = (la * lb, la * hb, ha * lb, ha * hb)
+        return ({l: x for l, x in c.items() if x}, ka * kb, min(cs), max(cs))
+
+    def _srange(self, t):
+        """range of the signed reading of a leaf term"""
+        n = self.S.node[t]
+        w = _width(n[1])
+        if n[0] == "op" and n[2].startswith("xmul"):
+            rs = []
+            for m, f in zip(n[2][4:6], n[3]):
+                wf = _width(self.S.node[f][1])
+                rs.append((-(1 << (wf - 1)), (1 << (wf - 1)) - 1) if m == "S" else (0, (1 << wf) - 1))
+            cs = [x * y for x in rs[0] for y in rs[1]]
+            if n[3][0] == n[3][1] and n[2][4] == n[2][5]:
+                return 0, max(cs)
+            return min(cs), max(cs)
+        return -(1 << (w - 1)), (1 << (w - 1)) - 1
 
     # ---- exact integer interpretation -----------------------------------------
     def interp(self, t, mode):
@@ -375,6 +562,12 @@ class Term:
                 r = ({l: x * f for l, x in a[0].items()}, a[1] * f, lo, hi)
                 if f != 0 and (self._fits(r, w, mode) or ("nsw" in flags and mode == "S") or ("nuw" in flags and mode == "U")):
                     return r
+            if name == "mul":
+                r = self._product(self.interp(ops[0], mode), self.interp(ops[1], mode))
+                if r is not None and (self._fits(r, w, mode) or ("nsw" in flags and mode == "S") or ("nuw" in flags and mode == "U")):
+                    return r
+            if name.startswith("xmul"):
+                return ({("S", t): 1}, 0) + self._srange(t)
         return self._leaf(t, mode, w)
 
     @staticmethod
@@ -425,8 +618,8 @@ class Term:
             thr = -thr + 1
         lo = hi = 0
         for t, x in P:
-            w = _width(S.node[t][1])
-            a, b = -(1 << (w - 1)) * x, ((1 << (w - 1)) - 1) * x
+            a, b = self._srange(t)
+            a, b = a * x, b * x
             lo += min(a, b)
             hi += max(a, b)
         if len(P) == 1 and P[0][1] == 1:
@@ -441,15 +634,22 @@ class Term:
         S = self.S
         n = S.node[t]
         w = _width(n[1])
-        m, M = -(1 << (w - 1)), (1 << (w - 1)) - 1
+        m, M = self._srange(t)
         if c <= m:
             return 0
         if c > M:
             return 1
+        if n[0] == "op" and n[2].startswith("xmul"):
+            return S.threshold(((t, 1),), c, m, M)
         if n[0] == "op" and depth < 8:
             lin = self.interp(t, "S")
             if lin[0] != {("S", t): 1}:
                 return self._lt0(dict(lin[0]), lin[1] - c)          # an exact expression of other values
+            ul = self.interp(t, "U")
+            if ul[0] != {("U", t): 1}:
+                # exact only in the unsigned reading: the signed reading is that value, minus 2^w in the upper half
+                low = self._lt0(dict(ul[0]), ul[1] - (1 << (w - 1)))
+                return S.b_ite(low, self._lt0(dict(ul[0]), ul[1] - c), self._lt0(dict(ul[0]), ul[1] - (1 << w) - c))
             name, ops = n[2], n[3]
             k = S.node[ops[1]] if len(ops) == 2 else None
             k0 = S.node[ops[0]] if len(ops) == 2 else None
@@ -705,6 +905,26 @@ class Term:
                     above = S.b_not(self._lt0(dict(c), k - (hi + 1)))   # not (r < hi + 1)
                     return S.b_or(below, above)
                 return ("t", (self.lift(ty, vals, val0), self.lift_bool(vals, ovf)))
+            mo = re.match(r'^llvm\.([su])mul\.with\.overflow\.(i\d+)$', callee)
+            if mo:
+                sg, ty = mo.groups()
+                mode = "S" if sg == "s" else "U"
+                w = _width(ty)
+                lo, hi = (-(1 << (w - 1)), (1 << (w - 1)) - 1) if sg == "s" else (0, (1 << w) - 1)
+
+                def mval0(p, q):
+                    if p > q:
+                        p, q = q, p
+                    return self.mk_op(ty, "mul", (p, q), ())
+
+                def movf(p, q):
+                    r = self._product(self.interp(p, mode), self.interp(q, mode))
+                    if r is None:
+                        raise Unsupported("product of non-linear terms")
+                    below = self._lt0(dict(r[0]), r[1] - lo)
+                    above = S.b_not(self._lt0(dict(r[0]), r[1] - (hi + 1)))
+                    return S.b_or(below, above)
+                return ("t", (self.lift(ty, vals, mval0), self.lift_bool(vals, movf)))
             mo = re.match(r'^llvm\.([su])(max|min)\.(i\d+)$', callee)
             if mo:
                 sg, mm, ty = mo.groups()
@@ -920,13 +1140,46 @@ def finalise(S, v, K):
     return v
 
 
+def same(S, x, y, K):
+    """equality of two results on the consistent atom assignments K; case lists are compared where both are
+    specified (an unspecified region stems from an undef arm: the payload of a None, padding)"""
+    if x[0] != y[0]:
+        return False
+    if x[0] == "b":
+        return S.b_and(x[1], K) == S.b_and(y[1], K)
+    if x[0] == "t":
+        return len(x[1]) == len(y[1]) and all(same(S, u, v, K) for u, v in zip(x[1], y[1]))
+    if x[0] == "m":
+        return [k for k, _ in x[1]] == [k for k, _ in y[1]] and all(same(S, u, v, K) for (_k, u), (_k2, v) in zip(x[1], y[1]))
+    if x[0] == "v":
+        if x[1] != y[1]:
+            return False
+        da = db = 0
+        for _t, g in x[2]:
+            da = S.b_or(da, g)
+        for _t, g in y[2]:
+            db = S.b_or(db, g)
+        D = S.b_and(S.b_and(da, db), K)
+        if D == 0:
+            return False
+        ga, gb = {}, {}
+        for t, g in x[2]:
+            ga[t] = S.b_or(ga.get(t, 0), S.b_and(g, D))
+        for t, g in y[2]:
+            gb[t] = S.b_or(gb.get(t, 0), S.b_and(g, D))
+        ga = {t: g for t, g in ga.items() if g != 0}
+        gb = {t: g for t, g in gb.items() if g != 0}
+        return ga == gb
+    return x == y
+
+
 def compare(mod, a, b):
     """-> True (equal), False (different forms) ; raises Unsupported"""
     S = Store()
     ra = Term(mod, a, S).run()
     rb = Term(mod, b, S).run()
     K = S.domain()
-    return finalise(S, ra, K) == finalise(S, rb, K)
+    return same(S, ra, rb, K)
 
 
 # ---- developer aid: readable rendering of a canonical result -----------------------------------
